@@ -114,6 +114,7 @@ func runC06(c *Collector, r *Rng, thorough bool) {
 		n = 3000
 	}
 	kinds := []string{"DSign1", "DSign1U", "DSignature", "DSignMsg", "DProt", "DUnprot", "DKey"}
+	var concIn []string
 	slow := 0
 	timed := func(kind string, data []byte) decoded {
 		t0 := time.Now()
@@ -150,8 +151,18 @@ func runC06(c *Collector, r *Rng, thorough bool) {
 				if d.err == nil && !d.paniced {
 					followUps(c, r, kind, in, &d)
 				}
+				if len(concIn) < 140 && !d.paniced && (d.err == nil || i%5 == 0) {
+					concIn = append(concIn, kind+" "+hx(in))
+				}
 			}
 		}
+	}
+	// decoders share nothing: the same inputs decoded from 16 goroutines at once (in a child process, because a
+	// fatal runtime error such as "concurrent map writes" cannot be recovered) give the results of decoding them alone
+	{
+		heIn := wTag(18, -1, wArr(-1, wBstr(wMap(-1, wInt(1, -1), wInt(-7, -1), wInt(258, -1), wInt(-16, -1)).Ser(), -1), wMap(-1, wInt(4, -1), wBstr([]byte("k"), -1)), wBstr(make([]byte, 32), -1), wBstr([]byte{1}, -1))).Ser()
+		concIn = append(concIn, "VerifyHE "+hx(heIn))
+		concurrentDecoders(c, "C06/concurrent-decoders", concIn)
 	}
 	// corpus: minimised inputs of earlier findings and of seeded changes run on every check
 	for _, cs := range []struct{ kind, hex string }{
